@@ -45,7 +45,7 @@ Watchdog::Watchdog(long csecs,
   }
   in_critical_section = true;
   pending_position = new_watchdog_event(csecs, handler, expired);
-  in_critical_section = false;
+  leave_critical_section();
 }
 
 inline
@@ -58,7 +58,7 @@ Watchdog::Watchdog(long csecs, void (* const function)())
   }
   in_critical_section = true;
   pending_position = new_watchdog_event(csecs, handler, expired);
-  in_critical_section = false;
+  leave_critical_section();
 }
 
 inline
@@ -66,14 +66,9 @@ Watchdog::~Watchdog() {
   if (!expired) {
     in_critical_section = true;
     remove_watchdog_event(pending_position);
-    in_critical_section = false;
+    leave_critical_section();
   }
   delete &handler;
-}
-
-inline void
-Watchdog::reschedule() {
-  set_timer(reschedule_time);
 }
 
 #else // !PPL_HAVE_DECL_SETITIMER !! !PPL_HAVE_DECL_SIGACTION
